@@ -45,6 +45,7 @@ THEOREMS = [
     'C04_normalize_matrix_6_cols_reproduces',
     'C04_normalize_matrix_3_reproduces',
     'C04_normalize_matrix_3_cols_reproduces',
+    'C04_normalize_matrix_5_reproduces',
     'C04_matrix3_row_minus_ex_refuted',
     'C04_adjust_matrix_fixpoint', 'C04_to_cos_deg', 'C04_tr_card_3',
     'C04_tr_card_12', 'C04_tr_card_star_12', 'C04_m1_only', 'C04_inline_12',
